@@ -8,8 +8,25 @@ harness/src/bin/c06p.rs (exact equality of parent / nodes / component definition
 streams, both reject the same inputs).  The lexer side of C06 is Props/C06.lean.
 -/
 import TeraModel.Lemmas.TemplateParserTotal
+import TeraModel.Lemmas.TemplateParserHeight
+import TeraModel.Lemmas.TemplateParserLegal
+import TeraModel.Lemmas.TemplateParserCounted
+import TeraModel.Lemmas.AstFree
 namespace Tera.C06Parser
 open Tera Tera.Parser Tera.TParser
+
+/-- verdict of a run, for the concrete examples below (decided by kernel evaluation) -/
+def verdict : TRes Template → Option (Option String)
+  | .ok t _ => some t.parent
+  | _ => none
+
+theorem err_of_verdict {r : TRes Template} (h1 : verdict r = none)
+    (h2 : (match r with | .err => true | _ => false) = true) : r = .err := by
+  cases r <;> simp_all
+
+theorem ok_of_verdict {r : TRes Template} {p : Option String} (h : verdict r = some p) :
+    ∃ t st, r = .ok t st ∧ t.parent = p := by
+  cases r <;> simp_all [verdict]
 
 /-! ## T1 — total, no panic, no fuel exhaustion -/
 
@@ -40,5 +57,181 @@ theorem expression_parser_total (C : Cfg) (maxDepth depth : Nat) (toks : List To
     parseExpression C maxDepth depth toks ≠ .fuel
       ∧ ∀ site, parseExpression C maxDepth depth toks ≠ .panic site :=
   parseExpression_total C maxDepth depth toks
+
+/-! ## T2 / T3 — what the depth counter bounds, and what it does not (finding F1 as a theorem)
+
+`Node.cd` / `Expr.cd` (Lemmas/AstCounted.lean) is the COUNTED depth of a tree: its height, except
+that these steps are free — the left spine of a binary-operator / filter / test / attribute /
+subscript / ternary chain, the `not` of `not in` / `is not`, and an `elif`.  They are exactly the
+steps the parser takes in a loop (`while let` of `parse_expr_bp`, `loop` of `parse_ident`) or by
+`parse_if` calling itself, i.e. without passing through `recursion_depth`. -/
+
+/-- **parser_depth_bounded (counted form).**  Every accepted template has counted depth ≤ the
+depth limit, component definition bodies one less.  So the number of nested COUNTED levels of the
+parser's own recursion (`parse_until` → `parse_until_inner` → `parse_tag` → `parse_*` →
+`parse_until`: 4 Rust frames per level; `inner_parse_expression` → `parse_expr_bp` →
+`parse_array | parse_map | parse_ident → parse_subscript | parse_filter → parse_kwargs | …` →
+`parse_expression`: ≤ 5 frames per level) is ≤ `maxDepth`; the only recursion on top of that is
+`parse_if` → `parse_if`, one frame per `elif` (`elif_chain_not_counted`).  Hence
+  parser recursion depth ≤ 5 · MAX_RECURSION_DEPTH + 4 + (longest elif chain)
+— the frame counts per level are read off parser.rs, they are not part of the model; the
+machine-checked parts are this theorem, `elif_chain_not_counted`, `ast_height_bound` and
+`ast_height_unbounded`. -/
+theorem counted_depth_bounded (maxDepth : Nat) (toks : List Tok) (t : Template) (s : TState)
+    (h : parse maxDepth toks = .ok t s) :
+    Node.cdList t.nodes ≤ maxDepth
+    ∧ ∀ d ∈ t.componentDefinitions, Node.cdList d.body + 1 ≤ maxDepth :=
+  parse_counted maxDepth toks t s h
+
+/-- the same for one expression: at budget `maxDepth - depth` the counted depth of the result is
+at most that budget -/
+theorem expression_counted_depth_bounded (C : Cfg) (maxDepth depth : Nat) (toks : List Tok)
+    (e : Expr) (s : PState) (h : parseExpression C maxDepth depth toks = .ok e s) :
+    e.cd ≤ maxDepth - depth :=
+  (CD.innerParseExpression C (maxDepth - depth) 0).elim h
+
+/-- **ast_height_bound.**  The height of an accepted tree is at most the depth limit PLUS the
+number of free steps on its worst path (`Node.free`, Lemmas/AstFree.lean: one per link of the
+left spine of an operator / filter / test / attribute / subscript / ternary chain, per `not`
+wrapper, per `elif`, plus the uncounted constant-size wrappers — the `{{ }}` node, the attribute
+list of a component call, the filter list of a `set` block).  `Node.heightList_le` is the
+tree-only inequality `height ≤ counted depth + free steps`; the parser contributes
+`counted depth ≤ maxDepth`. -/
+theorem ast_height_bound (maxDepth : Nat) (toks : List Tok) (t : Template) (s : TState)
+    (h : parse maxDepth toks = .ok t s) :
+    Node.heightList t.nodes ≤ maxDepth + Node.freeList t.nodes
+    ∧ ∀ d ∈ t.componentDefinitions, Node.heightList d.body + 1 ≤ maxDepth + Node.freeList d.body := by
+  obtain ⟨h1, h2⟩ := parse_counted maxDepth toks t s h
+  refine ⟨?_, fun d hd => ?_⟩
+  · have := Node.heightList_le t.nodes
+    omega
+  · have := Node.heightList_le d.body
+    have := h2 d hd
+    omega
+
+/-- **ast_height_unbounded.**  At the shipped limit (`MAX_RECURSION_DEPTH = 40`) there is NO bound
+on the height of an accepted tree, hence none on the recursion depth of anything that walks it
+(and none on the parser's own recursion along `elif`).  For every `n`:
+* `{{ 1 + 1 + … + 1 }}` with `n` additions — `2n + 3` tokens, lexer-shaped, ACCEPTED,
+  height ≥ `n + 2`, counted depth ≤ 2;
+* `{% if a %}{% elif a %}ⁿ{% endif %}` — `4n + 7` tokens, lexer-shaped, ACCEPTED,
+  height ≥ `n + 1`, counted depth ≤ 2.
+Any correct bound on tree height therefore needs the chain terms. -/
+theorem ast_height_unbounded (n : Nat) :
+    (∃ toks t st, toks.length = 2 * n + 3 ∧ shaped .tpl toks = true
+      ∧ parse Gen.MAX_RECURSION_DEPTH toks = .ok t st ∧ n + 2 ≤ Node.heightList t.nodes
+      ∧ Node.cdList t.nodes ≤ 2)
+    ∧ (∃ toks t st, toks.length = 4 * n + 7 ∧ shaped .tpl toks = true
+      ∧ parse Gen.MAX_RECURSION_DEPTH toks = .ok t st ∧ n + 1 ≤ Node.heightList t.nodes
+      ∧ Node.cdList t.nodes ≤ 2) :=
+  ⟨plus_chain_accepted n, elif_chain_accepted n⟩
+
+/-- the elif chain is parsed by `parse_if` re-entering ITSELF `n` times below a single
+`parse_until` level: the shared depth counter is not touched — two levels suffice for any `n` -/
+theorem elif_chain_not_counted (r n : Nat) :
+    ∃ t st, parse (r + 2) (elifToks n) = .ok t st ∧ n + 1 ≤ Node.heightList t.nodes := by
+  refine ⟨_, _, elif_chain_parse r n, ?_⟩
+  have := elifNest_height n
+  simp only [Node.heightList, Node.height, Expr.height]
+  omega
+
+/-! ## T4 — `break` / `continue` legality -/
+
+/-- **break_continue_legal.**  In an ACCEPTED template every `Break` / `Continue` node sits in the
+body of a `for` with no capturing construct (filter section, `set` block, body of a component
+call) between it and that body — `Node.legal` walks the tree with exactly the rule of `parse_tag`
+(`if` and `block` transparent; the `else` body of a `for` counts as outside that loop); and no
+component definition body contains one outside a loop of its own. -/
+theorem break_continue_legal (maxDepth : Nat) (toks : List Tok) (t : Template) (s : TState)
+    (h : parse maxDepth toks = .ok t s) :
+    Node.legalList false t.nodes
+    ∧ ∀ d ∈ t.componentDefinitions, Node.legalList false d.body :=
+  let ⟨h1, _, _, h4⟩ := parse_post maxDepth toks t s h
+  ⟨h1, fun d hd => (h4 d hd).1⟩
+
+/-- the rule is exact: `{% break %}` is accepted iff the walk over the context stack finds a loop
+before any capture (and symmetrically for `continue`) -/
+theorem break_rule (C : Bool → Cfg) (recU : EndCheck → T (List Node)) (ex : Bool → Nat → P Expr)
+    (f : Bool) (s : TState) (rest : List Tok) (hs : s.p.toks = .ident "break" :: rest) :
+    parseTag C recU ex f s =
+      if walk s.bodyContexts then .ok (some .break) { s with p := { s.p with toks := rest } }
+      else .err :=
+  parseTag_break C recU ex f s rest hs
+
+theorem continue_rule (C : Bool → Cfg) (recU : EndCheck → T (List Node)) (ex : Bool → Nat → P Expr)
+    (f : Bool) (s : TState) (rest : List Tok) (hs : s.p.toks = .ident "continue" :: rest) :
+    parseTag C recU ex f s =
+      if walk s.bodyContexts then .ok (some .continue) { s with p := { s.p with toks := rest } }
+      else .err :=
+  parseTag_continue C recU ex f s rest hs
+
+/-- `{% for x in y %}{% filter f %}{% if a %}{% break %}{% endif %}{% endfilter %}{% endfor %}`
+is REJECTED (the shape the seeded mutant C07-1 lets through) -/
+example : parse 40 [.tagStart false, .ident "for", .ident "x", .ident "in", .ident "y", .tagEnd false,
+    .tagStart false, .ident "filter", .ident "f", .tagEnd false,
+    .tagStart false, .ident "if", .ident "a", .tagEnd false,
+    .tagStart false, .ident "break", .tagEnd false,
+    .tagStart false, .ident "endif", .tagEnd false,
+    .tagStart false, .ident "endfilter", .tagEnd false,
+    .tagStart false, .ident "endfor", .tagEnd false] = .err :=
+  err_of_verdict (by decide +kernel) (by decide +kernel)
+
+/-! ## T5 — blocks, `extends` -/
+
+/-- **blocks_recorded_once.**  In an accepted template the parser has recorded exactly the
+`{% block %}`s of the tree — nested ones included, in source order — no block name occurs twice,
+and no component definition body contains a block. -/
+theorem blocks_recorded_once (maxDepth : Nat) (toks : List Tok) (t : Template) (s : TState)
+    (h : parse maxDepth toks = .ok t s) :
+    s.blocksSeen = (Node.blockNamesList t.nodes).reverse
+    ∧ (Node.blockNamesList t.nodes).Nodup
+    ∧ ∀ d ∈ t.componentDefinitions, Node.blockNamesList d.body = [] :=
+  let ⟨_, h2, h3, h4⟩ := parse_post maxDepth toks t s h
+  ⟨h2, h3, fun d hd => (h4 d hd).2⟩
+
+/-- `{% block a %}{% block a %}{% endblock %}{% endblock %}` is rejected -/
+example : parse 40 [.tagStart false, .ident "block", .ident "a", .tagEnd false,
+    .tagStart false, .ident "block", .ident "a", .tagEnd false,
+    .tagStart false, .ident "endblock", .tagEnd false,
+    .tagStart false, .ident "endblock", .tagEnd false] = .err := rfl
+
+/-- **extends_rule.**  The rule `parse_tag` implements, exactly: `{% extends "p" %}` is accepted
+iff no parent is set yet, only whitespace content precedes it in the node list OF THE CURRENT
+`parse_until` LEVEL, and the body-context stack is empty. -/
+theorem extends_rule (C : Bool → Cfg) (recU : EndCheck → T (List Node)) (ex : Bool → Nat → P Expr)
+    (f : Bool) (s : TState) (name : String) (rest : List Tok)
+    (hs : s.p.toks = .ident "extends" :: .str name :: rest) :
+    parseTag C recU ex f s =
+      if s.parent = none ∧ f = true ∧ s.bodyContexts = [] then
+        .ok none { s with p := { s.p with toks := rest }, parent := some name }
+      else .err :=
+  parseTag_extends C recU ex f s name rest hs
+
+/-- **The documented rule ("`extends` needs to be the first tag", "cannot be nested in other
+tags") does NOT follow** — `parse_for_loop` pops its `ForLoop` context before parsing the `else`
+body (parser.rs:1111 / :1116), so inside `{% for %}…{% else %}HERE{% endfor %}` at top level the
+context stack is empty and the node list is fresh:
+`hello{% for x in y %}{% else %}{% extends "p" %}{% endfor %}` is ACCEPTED with parent `p`.
+(The real engine agrees: harness c06p, stream `malformed-known`/`wellformed-known`.) -/
+theorem extends_not_first_accepted :
+    ∃ t st, parse 40 [.content "hello",
+      .tagStart false, .ident "for", .ident "x", .ident "in", .ident "y", .tagEnd false,
+      .tagStart false, .ident "else", .tagEnd false,
+      .tagStart false, .ident "extends", .str "p", .tagEnd false,
+      .tagStart false, .ident "endfor", .tagEnd false] = .ok t st ∧ t.parent = some "p" :=
+  ok_of_verdict (by decide +kernel)
+
+/-- same hole for blocks: rejected in the `for` body, accepted in its `else` body -/
+example : parse 40 [.tagStart false, .ident "for", .ident "x", .ident "in", .ident "y", .tagEnd false,
+    .tagStart false, .ident "block", .ident "b", .tagEnd false,
+    .tagStart false, .ident "endblock", .tagEnd false,
+    .tagStart false, .ident "endfor", .tagEnd false] = .err :=
+  err_of_verdict (by decide +kernel) (by decide +kernel)
+example : ∃ t st, parse 40 [.tagStart false, .ident "for", .ident "x", .ident "in", .ident "y", .tagEnd false,
+    .tagStart false, .ident "else", .tagEnd false,
+    .tagStart false, .ident "block", .ident "b", .tagEnd false,
+    .tagStart false, .ident "endblock", .tagEnd false,
+    .tagStart false, .ident "endfor", .tagEnd false] = .ok t st ∧ t.parent = none :=
+  ok_of_verdict (by decide +kernel)
 
 end Tera.C06Parser
